@@ -78,7 +78,7 @@ func controller(t *rapid.T, idx int, pkg string) (jgen.File, string) {
 }
 
 func gen(t *rapid.T) Case {
-	p := jgen.GenProject(t, jgen.Opts{Bodies: true, NameReuse: true, Interfaces: true, Wide: true, MaxUnits: 4, MaxMethods: 3, ExtraImps: rapid.Bool().Draw(t, "extraImps"), DupNames: rapid.Bool().Draw(t, "dupNames")})
+	p := jgen.GenProject(t, jgen.Opts{Bodies: true, NameReuse: true, Interfaces: true, Wide: true, RichDecl: true, MaxUnits: 4, MaxMethods: 3, ExtraImps: rapid.Bool().Draw(t, "extraImps"), DupNames: rapid.Bool().Draw(t, "dupNames")})
 	var c Case
 	for i, u := range p.Units {
 		c.Files = append(c.Files, p.Files[i])
